@@ -225,7 +225,7 @@ def run(repo, tier):
     r.rule("R9.2", "no run-time mutated process-global object flows into expression constructors, reference names or emitted text", floor=2)
     r.rule("R9.3", "no ordering or sort key is computed from id() or hash()", floor=1)
     r.rule("R9.8", "the value of the builtins id() / hash() never reaches text (f-string, str/format/hex, %-format, join), directly or through locals", floor=1)
-    r.rule("R9.5", "containers cached in the caller's parameters mapping are keyed context-uniquely (Type.__eq__ compares the context by identity)", floor=2)
+    r.rule("R9.5", "containers cached in the caller's parameters mapping are keyed context-uniquely (Type.__eq__ compares the context by identity; operation keys are not built from per-context counters)", floor=3)
     r.rule("R9.6", "names generated from the raw bytes of a numpy scalar use only the value-carrying bytes (no padding of unspecified content)", floor=1)
     r.rule("R9.7", "no one-shot iterator (map/zip/filter/iter/generator expression/itertools.*) bound at module or class level is traversed inside a function", floor=1)
     r.rule("R9.4", "memoisation (lru_cache/cache) of a function that dispatches on the type of its argument is typed", floor=2)
@@ -309,8 +309,28 @@ def run(repo, tier):
                     r.ob("R9.2", key, not (mutated and flows),
                          f"the default object of `{a.arg}` is shared by all calls in the process, is mutated in the function and flows into "
                          "an expression/name constructor: results depend on how often the function was called before", loc(rel, f))
-                    if escapes and not mutated:
-                        r.info("R9.2", f"{key}: stored on self but never mutated in the package (alias of a shared default)")
+                    if escapes:
+                        # the shared default object lives on as an attribute: any mutation of that attribute anywhere in the package is a
+                        # mutation of the one object every instance created without the argument holds
+                        attrs = {t.attr for n in ast.walk(f) if isinstance(n, ast.Assign) and isinstance(n.value, ast.Name) and n.value.id == a.arg
+                                 for t in n.targets if isinstance(t, ast.Attribute)}
+                        sites = []
+                        for rel2 in files:
+                            for n2 in ast.walk(repo.tree(rel2)):
+                                tgt = None
+                                if isinstance(n2, (ast.Assign, ast.AugAssign)):
+                                    for t in (n2.targets if isinstance(n2, ast.Assign) else [n2.target]):
+                                        if isinstance(t, ast.Subscript) and isinstance(t.value, ast.Attribute) and t.value.attr in attrs:
+                                            tgt = t.value
+                                elif isinstance(n2, ast.Call) and isinstance(n2.func, ast.Attribute) and n2.func.attr in MUTATORS \
+                                        and isinstance(n2.func.value, ast.Attribute) and n2.func.value.attr in attrs:
+                                    tgt = n2.func.value
+                                if tgt is not None:
+                                    sites.append(f"{rel2}:{n2.lineno} `{norm_src(n2)[:70]}`")
+                        r.ob("R9.2", key + f" kept as .{'/.'.join(sorted(attrs))}", not sites,
+                             f"the default object of `{a.arg}` is shared by every instance created without that argument, it is kept as the attribute "
+                             f".{'/.'.join(sorted(attrs))} and that attribute is mutated at {'; '.join(sites[:3])}{' ...' if len(sites) > 3 else ''}: what one instance "
+                             "records (caches, options) is seen by every later one, so generated text depends on the history of the process", loc(rel, f))
         # (2) module-level mutable objects mutated inside functions
         mod_mut = {}
         for st in tree.body:
@@ -463,6 +483,17 @@ def run(repo, tier):
              "one and the emitted text depends on what was generated before", loc(rel, n))
     if len(caches) < 2:
         raise AnalysisError(f"R9.5: only {len(caches)} parameter-mapping caches recognised in context.py (expected dtype_index_cache, same_dtype_cache)")
+    # ... and the keys themselves: the key of an *operation* is (kind, two-level keys of its operands).  If those are built from
+    # `intkey` - a per-context construction counter - two contexts that share a parameters mapping produce equal keys for unrelated
+    # expressions, whatever Type.__eq__ does for symbols.
+    cs_ = repo.func("expr.py", "Expr._compute_serialized")
+    tl_ = repo.func("expr.py", "Expr._two_level_intkey")
+    uses_tl = any(isinstance(x, ast.Attribute) and x.attr == "_two_level_intkey" for x in ast.walk(cs_))
+    counter_based = any(isinstance(x, ast.Attribute) and x.attr == "intkey" for x in ast.walk(tl_))
+    has_ctx = any(isinstance(x, ast.Attribute) and x.attr == "context" for fn_ in (cs_, tl_) for x in ast.walk(fn_))
+    r.ob("R9.5", "expr.py::Expr.key of an operation is unique across the contexts that may share a parameters mapping", not (uses_tl and counter_based) or has_ctx,
+         "the caches kept in the caller's parameters mapping are keyed by `expr.key`; for an operation that is (kind, operand intkeys), and intkey is a per-context "
+         "construction counter: a later Context given the same mapping finds entries of an earlier one under the keys of its own, unrelated expressions", loc("expr.py", tl_))
 
     # the parameters mapping is configuration: outside Context itself nothing writes to it (a default written while one function is
     # traced is read by the next function traced on the same context, or on any context given the same mapping)
